@@ -133,7 +133,7 @@ var notDecodeSteps = map[string]bool{"reg.load": true, "reg.store": true, "reg.s
 	"map.iter1": true, "map.iterN": true, "map.iterEnd": true}
 
 func stepHook(site string) {
-	if notDecodeSteps[site] {
+	if notDecodeSteps[site] || strings.HasPrefix(site, "auto.") {
 		return
 	}
 	stepCount++
